@@ -26,7 +26,8 @@ def one(name):
             rows.append((name, prop, "patch does not apply", 0, "", ""))
             return
         t0 = time.time()
-        env = dict(os.environ, VERIF_REPO=scratch, VERIF_SEED=a.seed, VERIF_EVIDENCE_DIR=os.path.join(scratch, ".ev"))
+        env = dict(os.environ, VERIF_REPO=scratch, VERIF_SEED=a.seed, VERIF_EVIDENCE_DIR=os.path.join(scratch, ".ev"),
+                   VERIF_REPLAY_DIR=os.path.join(scratch, ".replays"))
         r = subprocess.run([os.path.join(ROOT, "check"), prop, "--tier", "quick"], env=env, capture_output=True, text=True)
         kinds = sorted({l.split("kind=")[1].split()[0] for l in r.stdout.splitlines() if "violation kind=" in l})
         # the replay file named on the VIOLATION line must reproduce the violation from a fresh process (same changed tree)
